@@ -244,6 +244,17 @@ func (c *Client) writePacket(packet packets.ControlPacket) {
 	c.writeCh <- packet
 }
 
+// tryWritePacket queues the packet if the queue has room and reports whether
+// it did, it never blocks.
+func (c *Client) tryWritePacket(packet packets.ControlPacket) bool {
+	select {
+	case c.writeCh <- packet:
+		return true
+	default:
+		return false
+	}
+}
+
 func (c *Client) writeLoop() {
 	for {
 		select {
